@@ -119,14 +119,27 @@ def rule_csearch_status(F, R):
 def rule_tolerances(F, R):
     e = F.one("nano::bundle_t::econverged", "src/solver/bundle.cpp")
     s = F.one("nano::bundle_t::sconverged", "src/solver/bundle.cpp")
+    def tolvar(f):
+        """the local the returned comparison tests against"""
+        rets = [x for x in f.nodes() if x["k"] == "return" and x.get("c")]
+        for r in rets:
+            for y in walk(r):
+                if y["k"] == "ref" and y.get("dk") == "var":
+                    v, _ = find_var(f, y["d"])
+                    if v is not None and v.get("c"):
+                        return v, rets
+        return None, rets
+
     def parts(f):
-        tol = [v for v in f.nodes() if v["k"] == "var" and v.get("c")]
-        rets = [x for x in f.nodes() if x["k"] == "return"]
-        return (pp(tol[0]["c"][0]).replace(f.params[0]["n"], "EPS") if tol else None), (pp(rets[0]["c"][0]) if rets else None), (tol[0]["n"] if tol else None)
+        tv, rets = tolvar(f)
+        return (pp(tv["c"][0]).replace(f.params[0]["n"], "EPS") if tv is not None else None), (pp(rets[0]["c"][0]) if rets else None), (tv["n"] if tv is not None else None)
     te, re_, ne = parts(e)
     ts, rs, ns = parts(s)
     R.check(te is not None and te == ts, "R-C03-2", "one tolerance", e.loc(), "both tests use the tolerance " + str(te), "econverged uses %s, sconverged uses %s" % (te, ts))
-    z, det = kalg.compare_expr(e, [v for v in e.nodes() if v["k"] == "var"][0]["c"][0], "epsilon*sqrt(n)", atoms={"m_x.size()": "n"}, seed=R.seed)
+    tv_e, _ = tolvar(e)
+    if tv_e is None:
+        raise AnalysisBroken("bundle_t::econverged: the tolerance its test compares against was not found")
+    z, det = kalg.compare_expr(e, tv_e["c"][0], "epsilon*sqrt(n)", atoms={"m_x.size()": "n"}, seed=R.seed)
     R.check(bool(z), "R-C03-2", "tolerance formula", e.loc(), "tolerance = epsilon * sqrt(n)", "tolerance is %s: %s" % (te, det))
     R.check(re_ == "(smeared_e() <= %s)" % ne and rs == "(smeared_s().lpNorm<2>() <= %s)" % ns, "R-C03-2", "tested quantities", e.loc(),
             "smeared error and 2-norm of the smeared sub-gradient are compared with <= tol", "tests are %s / %s" % (re_, rs))
